@@ -10,7 +10,7 @@ namespace ratio
 {
     atom::atom(core &cr, const context ctx, predicate &pred) : item(cr, context(ctx), pred), sigma(cr.get_sat_core().new_var()) {}
 
-    lit atom::new_eq(item &i) noexcept
+    lit atom::new_eq(item &i)
     {
         if (this == &i)
             return TRUE_lit;
@@ -45,7 +45,7 @@ namespace ratio
         }
     }
 
-    bool atom::equates(item &i) noexcept
+    bool atom::equates(item &i)
     {
         if (this == &i)
             return true;
